@@ -7,14 +7,20 @@ package main
 
 import (
 	"bytes"
+	"crypto/hmac"
+	"crypto/sha256"
 	"fmt"
 	"io"
 	"net"
+	"strconv"
 	"testing"
 	"time"
 
 	"github.com/refraction-networking/conjure/pkg/station/log"
+	cj "github.com/refraction-networking/conjure/pkg/station/lib"
+	"github.com/refraction-networking/conjure/pkg/transports/wrapping/obfs4"
 	"github.com/refraction-networking/conjure/pkg/transports/wrapping/prefix"
+	"github.com/refraction-networking/obfs4/common/ntor"
 	pb "github.com/refraction-networking/conjure/proto"
 
 	"verif/sim"
@@ -456,6 +462,81 @@ func c04Scenario(r *sim.Run) {
 			return
 		}
 		w.settle()
+		// obfs4 clients draw the length of their handshake padding uniformly from the protocol's range;
+		// the extremes (shortest flight; a flight of exactly the maximum handshake length) come up once
+		// in eight thousand connections. Here the client handshake X | P_C | M_C | MAC is built by hand
+		// with a chosen padding length - the obfs4 specification's client side - for a registration of
+		// its own, and the station must find it (it then dials that registration's covert).
+		if !enumerated && tp.Prob("obfs4-extreme-padding", 1, 5) {
+			cx, err := w.newClient(80, pb.TransportType_Obfs4, nil)
+			if err != nil {
+				r.Fail("harness/c04-client", "%v", err)
+				return
+			}
+			w.register(cx.regMessage(nil))
+			var keys *obfs4.Obfs4Keys
+			for _, rg := range w.rm.GetRegistrations(cx.phantom(v6)) {
+				if d, ok := rg.(*cj.DecoyRegistration); ok && string(d.Keys.SharedSecret) == string(cx.keys.SharedSecret) {
+					if k, ok := d.Keys.TransportKeys.(obfs4.Obfs4Keys); ok {
+						keys = &k
+					}
+				}
+			}
+			if keys == nil {
+				r.Fail("harness/c04-obfs4-keys", "the obfs4 registration for the crafted handshake was not admitted")
+				return
+			}
+			padLen := []int{obfs4.ClientMaxPadLength, obfs4.ClientMinPadLength, obfs4.ClientMaxPadLength - 1, obfs4.ClientMinPadLength + 1}[tp.Choose("padlen", 4)]
+			kp, err := ntor.NewKeypair(true)
+			if err != nil {
+				r.Fail("harness/c04-ntor", "%v", err)
+				return
+			}
+			mac := hmac.New(sha256.New, append(keys.PublicKey.Bytes()[:], keys.NodeID.Bytes()[:]...))
+			mac.Write(kp.Representative().Bytes()[:])
+			mark := mac.Sum(nil)[:obfs4.MarkLength]
+			var fl bytes.Buffer
+			fl.Write(kp.Representative().Bytes()[:])
+			fl.Write(tp.Bytes("padding", padLen))
+			fl.Write(mark)
+			mac.Reset()
+			mac.Write(fl.Bytes())
+			mac.Write([]byte(strconv.FormatInt(time.Now().Unix()/3600, 10)))
+			fl.Write(mac.Sum(nil)[:obfs4.MacLength])
+			var cuts []int
+			for k := tp.Choose("xcuts", 3); k > 0; k-- {
+				cuts = append(cuts, 1+tp.Choose("xcut", fl.Len()-1))
+			}
+			d0 := len(w.dials)
+			conn := w.open(cx.phantom(v6), simnet.TCP("198.51.100.78", 41900))
+			stWriteSegments(conn.H, fl.Bytes(), cuts, nil)
+			dialled := false
+			for k := 0; k < 12 && !dialled && !conn.returned; k++ {
+				w.settle()
+				w.mu.Lock()
+				for _, d := range w.dials[d0:] {
+					if d.addr == cx.covert {
+						dialled = true
+					}
+				}
+				w.mu.Unlock()
+				if !dialled {
+					time.Sleep(time.Second)
+				}
+			}
+			conn.H.Close()
+			for k := 0; k < 30 && !conn.returned; k++ {
+				w.settle()
+				time.Sleep(time.Second)
+			}
+			w.settle()
+			r.Probe("obfs4_handshake_with_extreme_padding")
+			r.Cover("obfs4-pad", fmt.Sprint(padLen))
+			if !dialled {
+				r.Fail("C04/not-recognised/obfs4/extreme-padding", "a valid obfs4 client handshake with %d bytes of padding (the protocol allows %d..%d; flight of %d bytes, cut at %v) was not matched to its registration: the covert %s was never dialled", padLen, obfs4.ClientMinPadLength, obfs4.ClientMaxPadLength, fl.Len(), cuts, cx.covert)
+				return
+			}
+		}
 		// marked used: 11 minutes later a sweep must leave the registration matchable
 		time.Sleep(11 * time.Minute)
 		w.rm.RemoveOldRegistrations()
